@@ -188,7 +188,7 @@ CLAIMS = {
          "to_future and to_stream and the completion-status cases with the terminal placed before / inside (through a hook) / after the waiter's "
          "check-then-register window. PARTIAL: real two-thread schedules other than that window are sampled, not enumerated; the channel and "
          "AtomicWaker are modelled.", "DESIGN.md section 5 C14"),
- "C13": ("Theorems: C13_no_shared_cell_in_pipeline_values (a table of every struct of /repo/src that implements Observable, with its field "
+ "C13": ("Theorems: C13_building_performs_no_work, C13_no_shared_cell_in_pipeline_values (a table of every struct of /repo/src that implements Observable, with its field "
          "types, regenerated on every run: none but subjects / share / complete_status carries Rc, Arc, RefCell, Cell, Mutex or an atomic), "
          "C13_subscription_is_pure, C13_successive_subscriptions_agree, C13_nested_subscriptions_agree (with every operator's state created "
          "per subscription - a model with an explicit heap of cells reachable from the pipeline value - any number of successive subscriptions "
@@ -197,8 +197,11 @@ CLAIMS = {
          "create, from_iter), reads the counters before any subscription (laziness) and after 2-3 successive or nested subscriptions of clones, "
          "and compares every subscription's trace with the model; two overlapping subscriptions of clones of one scheduler-using operator "
          "value (delay, observe_on, debounce, buffers, delayed subscription) are compared with two independent timed systems. The table's "
-         "notion of 'shared cell' includes the crate's own sharing types and aliases (MultiSubscription, TaskHandle, RcHandler ...). PARTIAL: "
-         "futures are not exercised; laziness is decided by the counters (correspondence), not by a theorem.", "DESIGN.md section 5 C13"),
+         "notion of 'shared cell' includes the crate's own sharing types and aliases (MultiSubscription, TaskHandle, RcHandler ...). "
+         "C13_building_performs_no_work: a second table regenerated on every run classifies the body of every function a pipeline is built "
+         "with (136: source constructors, ObservableExt's default methods, the operators' `new`): none calls a closure parameter, subscribes, "
+         "polls, schedules or calls an observer, except the two conversions that subscribe by definition (to_future, to_stream). PARTIAL: "
+         "futures are not exercised dynamically; the laziness table is syntactic.", "DESIGN.md section 5 C13"),
  "C18": ("Theorems: C18_same_notifications / C18_same_outcome_when_finished (a macro body seen as a sequence of cell acquisitions, releases and "
          "downstream calls delivers the same notifications with RefCell cells and with Mutex cells in one thread; both finish or both fail - the "
          "local form by a panic, the thread-safe one by never returning), C18_both_forms_share_one_body and C18_written_twice_is_reviewed (tables "
